@@ -151,15 +151,81 @@ static std::string showPending(const std::optional<Ibb> &p)
     return "?";
 }
 
+// ------------------------------------------------------------------------------------------------ receiver devices
+// What the application hands to QXmppTransferJob::accept(QIODevice *).  QIODevice::write() may legally take fewer bytes
+// than offered, or fail; the property is about what the device HOLDS, so that is what is observed and judged.
+struct DevSpec {
+    enum K { Buf, PerWrite, Full, Fail } k = Buf;
+    long n = 0;
+    std::string str() const
+    {
+        switch (k) {
+        case Buf: return "buf";
+        case PerWrite: return "pw:" + std::to_string(n);
+        case Full: return "full:" + std::to_string(n);
+        case Fail: return "fail:" + std::to_string(n);
+        }
+        return "?";
+    }
+};
+class RecvDevice : public QIODevice
+{
+public:
+    DevSpec spec;
+    QByteArray held;
+    bool lossy = false;  // some write() took less than offered or failed
+    qint64 offered = 0;  // bytes passed to write() so far
+    explicit RecvDevice(DevSpec s) : spec(s) { }
+    bool isSequential() const override { return true; }
+protected:
+    qint64 readData(char *, qint64) override { return -1; }
+    qint64 writeData(const char *data, qint64 len) override
+    {
+        qint64 take = len;
+        offered += len;
+        if (spec.k == DevSpec::PerWrite) take = std::min<qint64>(len, spec.n);
+        else if (spec.k == DevSpec::Full) take = std::min<qint64>(len, std::max<qint64>(0, spec.n - held.size()));
+        else if (spec.k == DevSpec::Fail && held.size() + len > spec.n) { lossy = true; return -1; }
+        if (take < len) lossy = true;
+        held.append(data, int(take));
+        return take;
+    }
+};
+// a plain QBuffer for `buf`, a RecvDevice otherwise
+struct Sink {
+    DevSpec spec;
+    QBuffer buf;
+    std::unique_ptr<RecvDevice> custom;
+    explicit Sink(DevSpec s) : spec(s)
+    {
+        if (s.k == DevSpec::Buf) buf.open(QIODevice::WriteOnly);
+        else { custom = std::make_unique<RecvDevice>(s); custom->open(QIODevice::WriteOnly | QIODevice::Unbuffered); }
+    }
+    QIODevice *device() { return custom ? static_cast<QIODevice *>(custom.get()) : &buf; }
+    const QByteArray &held() const { return custom ? custom->held : buf.data(); }
+    bool lossy() const { return custom && custom->lossy; }
+    qint64 offered() const { return custom ? custom->offered : qint64(buf.data().size()); }
+};
+
 static const QString SJID = QStringLiteral("romeo@montague.example/orchard");
 static const QString RJID = QStringLiteral("juliet@capulet.example/balcony");
-static QString thirdJid(int n) { return QStringLiteral("mallory%1@evil.example/x").arg(n); }
+// JIDs that are NOT the offering client's full JID (the model only knows "sender ≠ 0"; the number selects the string)
+static QString thirdJid(int n)
+{
+    switch (n) {
+    case 2: return QStringLiteral("romeo@montague.example/phone");             // same account, other resource
+    case 3: return QStringLiteral("romeo@montague.example");                   // same account, bare JID
+    case 4: return QStringLiteral("Romeo@Montague.Example/orchard");           // case variant
+    case 5: return QStringLiteral("romeo@montague.example.evil.org/orchard");  // look-alike domain extending the real one
+    default: return QStringLiteral("mallory%1@evil.example/x").arg(n);         // another account
+    }
+}
 
 struct World {
     Side s { SJID };
     Side r { RJID };
     QXmppTransferJob *incoming = nullptr;
-    QBuffer *acceptInto = nullptr;
+    QIODevice *acceptInto = nullptr;
     World()
     {
         s.mgr->setSupportedMethods(QXmppTransferJob::InBandMethod);
@@ -182,22 +248,24 @@ struct Transfer {
     bool withHash;
     QByteArray data;
     QString sidStr;
-    QBuffer sendBuf, recvBuf;
+    QBuffer sendBuf;
+    Sink sink;
     QXmppTransferJob *sj = nullptr, *rj = nullptr;
     int sFin = 0, rFin = 0, sErrSig = 0, rErrSig = 0;
-    qint64 sDone = 0;
+    qint64 sDone = 0, rDone = 0;
     std::optional<Ibb> pending;
     std::string history;
     // what the oracle needs to know about the faults applied (decided from the op and the kind of stanza it hit)
     int faults = 0;        // fault ops that hit a data block (lost / reordered / altered / mislabelled / stream cut short)
     int harmlessDups = 0;  // duplicated data blocks
-    int otherOps = 0;      // anything else that is not an honest delivery (faults on <open/>/<close/>, injected stanzas)
+    int otherOps = 0;      // anything else that is not an honest delivery (faults on <open/>/<close/>, forged stanzas)
+    int foreignInj = 0;    // injected stanzas from another JID / for another session id
     bool sawRSuccessWrong = false;
     bool altered = false;  // a payload was altered in transit / a block was forged in the sender's name with its session id
     bool dupRefused = false;
     static int counter;
 
-    Transfer(int bS, int bR, bool hash, const QByteArray &d) : bsS(bS), bsR(bR), withHash(hash), data(d) { }
+    Transfer(int bS, int bR, bool hash, const QByteArray &d, DevSpec dev) : bsS(bS), bsR(bR), withHash(hash), data(d), sink(dev) { }
     ~Transfer()
     {
         delete sj;
@@ -215,8 +283,7 @@ struct Transfer {
         sidStr = QStringLiteral("sid%1").arg(++counter);
         sendBuf.setData(data);
         sendBuf.open(QIODevice::ReadOnly);
-        recvBuf.open(QIODevice::WriteOnly);
-        W->acceptInto = &recvBuf;
+        W->acceptInto = sink.device();
         W->incoming = nullptr;
         QXmppTransferFileInfo info;
         info.setName(QStringLiteral("file.bin"));
@@ -247,6 +314,7 @@ struct Transfer {
         rj = W->incoming;
         if (rj) {
             QObject::connect(rj, &QXmppTransferJob::finished, [this]() { rFin++; });
+            QObject::connect(rj, &QXmppTransferJob::progress, [this](qint64 done, qint64) { rDone = done; });
             QObject::connect(rj, QOverload<QXmppTransferJob::Error>::of(&QXmppTransferJob::error), [this](QXmppTransferJob::Error) { rErrSig++; });
         }
         return rj && pending && pending->kind == Ibb::Open;
@@ -354,12 +422,12 @@ struct Transfer {
         }
         if (rp.empty()) rp = "-";
         std::ostringstream o;
-        o << rp << "|R " << stateName(rj->state()) << " " << errName(rj->error()) << " " << recvBuf.data().size() << " "
-          << digest(recvBuf.data()) << " f" << rFin << " e" << rErrSig
+        o << rp << "|R " << stateName(rj->state()) << " " << errName(rj->error()) << " " << sink.held().size() << " "
+          << digest(sink.held()) << " d" << rDone << " f" << rFin << " e" << rErrSig
           << "|S " << stateName(sj->state()) << " " << errName(sj->error()) << " " << sDone << " f" << sFin << " e" << sErrSig
           << "|P " << showPending(pending);
         // oracle 1 is evaluated after every op: whenever the receiver says "finished without error" it must hold the sender's bytes
-        if (rj->state() == QXmppTransferJob::FinishedState && rj->error() == QXmppTransferJob::NoError && recvBuf.data() != data)
+        if (rj->state() == QXmppTransferJob::FinishedState && rj->error() == QXmppTransferJob::NoError && sink.held() != data)
             sawRSuccessWrong = true;
         return o.str();
     }
@@ -390,11 +458,11 @@ struct Transfer {
             if (pending) {
                 Ibb p = *pending; pending.reset();
                 auto r1 = toReceiver(p);
-                const qint64 len1 = recvBuf.data().size();
+                const qint64 len1 = sink.held().size();
                 auto r2 = toReceiver(p);
                 if (onData) {
                     harmlessDups++;
-                    dupRefused = r2.size() == 1 && !r2[0].ok && recvBuf.data().size() == len1;
+                    dupRefused = r2.size() == 1 && !r2[0].ok && sink.held().size() == len1;
                 }
                 feed(r1); feed(r2);
             }
@@ -431,7 +499,8 @@ struct Transfer {
         } else if (w == "wsid") {
             if (pending) { Ibb p = *pending; pending.reset(); p.sid = 1; feed(toReceiver(p)); if (onData) faults++; }
         } else if (w == "wsender") {
-            if (pending) { Ibb p = *pending; pending.reset(); p.sender = 1; feed(toReceiver(p)); if (onData) faults++; }
+            int who = 1; is >> who; if (who <= 0) who = 1;
+            if (pending) { Ibb p = *pending; pending.reset(); p.sender = who; feed(toReceiver(p)); if (onData) faults++; }
         } else if (w == "inj") {
             Ibb c; std::string kind;
             is >> c.sender >> c.sid >> kind;
@@ -442,7 +511,8 @@ struct Transfer {
                 if (hx != "-") c.payload = QByteArray::fromHex(QByteArray::fromStdString(hx));
             } else c.kind = Ibb::Close;
             feed(toReceiver(c));
-            otherOps++;  // not one of the property's faults: only oracle 1 applies
+            if (c.sender != 0 || c.sid != 0) foreignInj++;  // somebody else's stanza: must not disturb the transfer
+            else otherOps++;                                // forged in the sender's name: only oracle 1 applies
             if (c.sender == 0 && c.sid == 0 && c.kind == Ibb::Data) altered = true;
         }
         if (w != "deliver" && w != "inj" && faults + harmlessDups == faultsBefore) otherOps++;
@@ -470,7 +540,7 @@ static std::string contentSpec(const std::string &kind, const QByteArray &d)
 }
 
 // ------------------------------------------------------------------------------------------------ running + judging
-struct Case { int bsS, bsR; bool hash; std::string kind; QByteArray data; std::vector<std::string> ops; bool finishHonestly = true; };
+struct Case { int bsS, bsR; bool hash; std::string kind; QByteArray data; std::vector<std::string> ops; bool finishHonestly = true; DevSpec dev; };
 
 static long long totalOps = 0;
 
@@ -489,9 +559,12 @@ static void judge(Transfer &t, const Case &c, const std::string &replay)
         oracleFail(!c.hash && t.altered ? "C19:nohash-altered-accepted" : "C19:success-with-different-bytes", replay);
         return;
     }
-    if (t.faults == 0 && t.harmlessDups == 0 && t.otherOps == 0 && c.bsS <= c.bsR && c.bsS > 0) {
-        if (t.rSuccess() && t.sSuccess() && t.recvBuf.data() == c.data) oraclePass()++;
-        else oracleFail(blocks > 65536 ? "C19:ibb-seq-wrap" : "C19:honest-run-not-successful", replay);
+    if (t.faults == 0 && t.harmlessDups == 0 && t.otherOps == 0 && c.bsS <= c.bsR && c.bsS > 0 && !t.sink.lossy()) {
+        // (4) stanzas of other JIDs (another account, another resource of the same account, the bare JID, a case variant,
+        //     a look-alike domain) or for other session ids are not part of the transfer: the outcome is the honest one
+        if (t.rSuccess() && t.sSuccess() && t.sink.held() == c.data) oraclePass()++;
+        else oracleFail(t.foreignInj > 0 ? "C19:foreign-stanza-disturbs-transfer"
+                        : blocks > 65536 ? "C19:ibb-seq-wrap" : "C19:honest-run-not-successful", replay);
         return;
     }
     if (t.faults == 1 && t.harmlessDups == 0 && t.otherOps == 0) {
@@ -499,9 +572,9 @@ static void judge(Transfer &t, const Case &c, const std::string &replay)
         else oraclePass()++;
         return;
     }
-    if (t.faults == 0 && t.harmlessDups == 1 && t.otherOps == 0 && c.bsS <= c.bsR) {
+    if (t.faults == 0 && t.harmlessDups == 1 && t.otherOps == 0 && c.bsS <= c.bsR && !t.sink.lossy()) {
         // a duplicated data block: the copy must be refused (error reply, nothing written) and the transfer must still be exact
-        if (t.dupRefused && t.rSuccess() && t.recvBuf.data() == c.data) oraclePass()++;
+        if (t.dupRefused && t.rSuccess() && t.sink.held() == c.data) oraclePass()++;
         else oracleFail("C19:duplicate-not-refused", replay);
         return;
     }
@@ -510,8 +583,8 @@ static void judge(Transfer &t, const Case &c, const std::string &replay)
 
 static void runCase(const Case &c)
 {
-    Transfer t(c.bsS, c.bsR, c.hash, c.data);
-    const std::string reset = "reset ibb " + std::to_string(c.bsS) + " " + std::to_string(c.bsR) + " " + (c.hash ? "1" : "0") + " " +
+    Transfer t(c.bsS, c.bsR, c.hash, c.data, c.dev);
+    const std::string reset = "reset ibb " + std::to_string(c.bsS) + " " + std::to_string(c.bsR) + " " + (c.hash ? "1" : "0") + " " + c.dev.str() + " " +
         contentSpec(c.kind, c.data);
     printf("I %s\n", reset.substr(0, 200).c_str());
     fflush(stdout);
@@ -550,14 +623,16 @@ static std::string rndHex(Rng &rng, int n)
 struct SocksRun {
     QByteArray data;        // what the peer announced (size/hash are of this)
     bool withHash; bool withSize;
-    QBuffer recvBuf;
+    Sink sink;
     QXmppTransferJob *rj = nullptr;
     int rFin = 0;
+    qint64 rDone = 0;
+    explicit SocksRun(DevSpec d) : sink(d) { }
     QTcpSocket *sock = nullptr;
     std::string obs()
     {
         std::ostringstream o;
-        o << "R " << stateName(rj->state()) << " " << errName(rj->error()) << " " << recvBuf.data().size() << " " << digest(recvBuf.data()) << " f" << rFin;
+        o << "R " << stateName(rj->state()) << " " << errName(rj->error()) << " " << sink.held().size() << " " << digest(sink.held()) << " d" << rDone << " f" << rFin;
         return o.str();
     }
 };
@@ -574,15 +649,14 @@ static bool socksAvailable = true;
 
 // chunks: the byte strings written; `disconnectAtEnd`: close the connection afterwards
 static void runSocks(const QByteArray &announced, bool withHash, bool withSize, const std::vector<QByteArray> &chunks, bool faulty,
-                     const std::string &label)
+                     const std::string &label, DevSpec dev = DevSpec())
 {
     if (!socksAvailable) { stat("socks_skipped"); return; }
     World &w = *W;
     w.r.mgr->setSupportedMethods(QXmppTransferJob::SocksMethod);
-    SocksRun run;
+    SocksRun run(dev);
     run.data = announced;
-    run.recvBuf.open(QIODevice::WriteOnly);
-    w.acceptInto = &run.recvBuf;
+    w.acceptInto = run.sink.device();
     w.incoming = nullptr;
     w.r.out.clear();
     const QString sid = QStringLiteral("socks%1").arg(++socksCounter);
@@ -602,12 +676,13 @@ static void runSocks(const QByteArray &announced, bool withHash, bool withSize, 
                                          "</field></x></feature></si></iq>").arg(RJID, SJID, sid, file);
     w.r.receiveXml(offer);
     run.rj = w.incoming;
-    std::string op = "reset socks " + std::string(withHash ? "1 " : "0 ") + (withSize ? "1 " : "0 ") + "hex:" +
+    std::string op = "reset socks " + std::string(withHash ? "1 " : "0 ") + (withSize ? "1 " : "0 ") + dev.str() + " hex:" +
         hex((const unsigned char *)announced.constData(), announced.size());
     if (!run.rj || run.rj->method() != QXmppTransferJob::SocksMethod) {
         fprintf(stderr, "harness: SOCKS offer not accepted\n"); exit(3);
     }
     QObject::connect(run.rj, &QXmppTransferJob::finished, [&run]() { run.rFin++; });
+    QObject::connect(run.rj, &QXmppTransferJob::progress, [&run](qint64 done, qint64) { run.rDone = done; });
     const QString hosts = QStringLiteral("<iq id=\"hosts1\" to=\"%1\" from=\"%2\" type=\"set\"><query xmlns=\"http://jabber.org/protocol/bytestreams\" sid=\"%3\">"
                                          "<streamhost jid=\"%2\" host=\"127.0.0.1\" port=\"%4\"/></query></iq>").arg(RJID, SJID, sid).arg(server.serverPort());
     w.r.receiveXml(hosts);
@@ -621,10 +696,10 @@ static void runSocks(const QByteArray &announced, bool withHash, bool withSize, 
     corr(op, "ok|" + run.obs());
     std::string hist = op + ";";
     for (auto &c : chunks) {
-        const qint64 before = run.recvBuf.data().size();
+        const qint64 before = run.sink.offered();
         accepted->write(c);
         accepted->flush();
-        spinUntil([&]() { return run.recvBuf.data().size() >= before + c.size() || run.rj->state() == QXmppTransferJob::FinishedState; });
+        spinUntil([&]() { return run.sink.offered() >= before + c.size() || run.rj->state() == QXmppTransferJob::FinishedState; });
         QCoreApplication::processEvents();
         std::string o = "chunk " + (c.isEmpty() ? std::string("-") : hex((const unsigned char *)c.constData(), c.size()));
         hist += o + ";";
@@ -641,7 +716,8 @@ static void runSocks(const QByteArray &announced, bool withHash, bool withSize, 
     // oracle: success ⇒ identical bytes; honest ⇒ success; truncated/altered ⇒ not success (when the offer carried what is needed)
     QByteArray all; for (auto &c : chunks) all += c;
     const bool success = run.rj->state() == QXmppTransferJob::FinishedState && run.rj->error() == QXmppTransferJob::NoError;
-    if (success && run.recvBuf.data() != announced) oracleFail("C19:socks-success-with-different-bytes", label + " " + hist.substr(0, 400));
+    if (run.sink.lossy()) faulty = true;  // the device did not take everything: the receiver cannot hold the file
+    if (success && run.sink.held() != announced) oracleFail("C19:socks-success-with-different-bytes", label + " " + hist.substr(0, 400));
     else if (!faulty && !success) oracleFail("C19:socks-honest-run-not-successful", label + " " + hist.substr(0, 400));
     else if (faulty && success) oracleFail("C19:socks-fault-but-success", label + " " + hist.substr(0, 400));
     else oraclePass()++;
@@ -668,7 +744,8 @@ int main(int argc, char **argv)
         return 0;
     }
 
-    const std::vector<std::string> faultOps = { "drop", "dup", "swap", "flip", "eclose", "wsid", "wsender" };
+    const std::vector<std::string> faultOps = { "drop", "dup", "swap", "flip", "eclose", "wsid", "wsender",
+                                                "wsender 2", "wsender 3", "wsender 4", "wsender 5" };
     std::vector<int> blockSizes = { 1, 2, 16 };
     if (thorough) blockSizes.push_back(4096);
 
@@ -736,6 +813,71 @@ int main(int argc, char **argv)
         stat("exhaustive_depth", depth);
         stat("exhaustive_alphabet", (long long)alpha.size());
     }
+    // ---- 1c. receiver devices that take less than offered / run full / fail: honest channel and every single fault
+    {
+        auto devicesFor = [](long n) {
+            std::vector<DevSpec> v;
+            for (long k : { 1L, 7L, 1000L }) v.push_back({ DevSpec::PerWrite, k });
+            for (long m : { 0L, 1L, n - 1, n, n + 5 }) if (m >= 0) v.push_back({ DevSpec::Full, m });
+            for (long m : { 0L, n / 2, n - 1, n }) if (m >= 0) v.push_back({ DevSpec::Fail, m });
+            return v;
+        };
+        for (int b : { 1, 2, 16 }) {
+            for (long n : { 1L, long(b), b + 1L, 3L * b + 2 }) {
+                QByteArray d = makeContent("rnd", n, rng);
+                for (auto &dev : devicesFor(n)) {
+                    for (int hash = 1; hash >= 0; hash--) {
+                        Case c { b, 4096, hash == 1, "rnd", d, {} };
+                        c.dev = dev;
+                        runCase(c);
+                        stat("device_cases");
+                        const long blocks = (n + b - 1) / b;
+                        if (b == 16 && n > 17) continue;
+                        for (auto &f : faultOps) {
+                            Case cf = c;
+                            const long pos = 1 + rng.below(uint32_t(blocks));  // a data block
+                            for (long k = 0; k < pos; k++) cf.ops.push_back("deliver");
+                            cf.ops.push_back(f == "flip" ? "flip " + std::to_string(rng.below(1 << 16)) : f);
+                            runCase(cf);
+                            stat("device_cases");
+                        }
+                    }
+                }
+            }
+        }
+    }
+    // ---- 1d. impersonation: at every position a stanza with the right session id (and, for data, the sequence number
+    //          the receiver waits for) arrives from a JID that is not the offering full JID
+    {
+        for (int b : { 1, 2, 16 }) {
+            for (long n : { 1L, long(b), b + 1L, 3L * b + 2 }) {
+                QByteArray d = makeContent("rnd", n, rng);
+                const long blocks = (n + b - 1) / b;
+                for (int who = 1; who <= 5; who++) {
+                    for (int hash = 1; hash >= 0; hash--) {
+                        for (long pos = 0; pos <= blocks + 1; pos++) {       // before <open/>, before each block, before <close/>
+                            for (const char *kind : { "data", "open", "close" }) {
+                                Case c { b, 4096, hash == 1, "rnd", d, {} };
+                                for (long k = 0; k < pos; k++) c.ops.push_back("deliver");
+                                std::string inj = "inj " + std::to_string(who) + " 0 " + kind;
+                                if (std::string(kind) == "data") {
+                                    // the block the receiver expects next is block pos-1 (after <open/> and pos-1 blocks)
+                                    const long blk = pos == 0 ? 0 : pos - 1;
+                                    const long len = std::max<long>(1, std::min<long>(b, n - blk * b));
+                                    QByteArray forged(int(len), '\0');
+                                    for (long i = 0; i < len; i++) forged[int(i)] = char(~d[int(std::min<long>(n - 1, blk * b + i))]);
+                                    inj += " " + std::to_string(blk % 65536) + " " + hex((const unsigned char *)forged.constData(), forged.size());
+                                } else if (std::string(kind) == "open") inj += " " + std::to_string(b);
+                                c.ops.push_back(inj);
+                                runCase(c);
+                                stat("impersonation_cases");
+                            }
+                        }
+                    }
+                }
+            }
+        }
+    }
     // ---- 2. block-size negotiation: the receiver refuses a larger block size than its own
     for (auto [bS, bR] : std::vector<std::pair<int, int>> { { 16, 8 }, { 8, 8 }, { 4096, 4095 }, { 1, 1 }, { 0, 16 } }) {
         runCase({ bS, bR, true, "rnd", makeContent("rnd", 20, rng), {} });
@@ -748,6 +890,12 @@ int main(int argc, char **argv)
         const long n = rng.below(4 * b + 3);
         const char *kind = rng.below(4) == 0 ? "zero" : "rnd";
         Case c { b, rng.below(8) == 0 ? b : 4096, rng.below(5) != 0, kind, makeContent(kind, n, rng), {} };
+        if (rng.below(4) == 0) {
+            const uint32_t k = rng.below(3);
+            if (k == 0) c.dev = { DevSpec::PerWrite, long(1 + rng.below(6)) };
+            else if (k == 1) c.dev = { DevSpec::Full, long(rng.below(uint32_t(n + 3))) };
+            else c.dev = { DevSpec::Fail, long(rng.below(uint32_t(n + 3))) };
+        }
         const int len = 1 + rng.below(thorough ? 14 : 9);
         for (int j = 0; j < len; j++) {
             const uint32_t r = rng.below(100);
@@ -759,10 +907,10 @@ int main(int argc, char **argv)
             else if (r < 73) op = "flip " + std::to_string(rng.below(1 << 12));
             else if (r < 78) op = "eclose";
             else if (r < 83) op = "wsid";
-            else if (r < 86) op = "wsender";
+            else if (r < 86) op = "wsender " + std::to_string(1 + rng.below(5));
             else {
                 // injected stanza: mostly from a third party or for another session, sometimes a forgery in the sender's name
-                const int sender = rng.below(4) == 0 ? 0 : 1, sid = rng.below(3) == 0 ? 1 : 0;
+                const int sender = rng.below(4) == 0 ? 0 : 1 + int(rng.below(5)), sid = rng.below(3) == 0 ? 1 : 0;
                 const uint32_t k = rng.below(10);
                 if (k < 6) op = "inj " + std::to_string(sender) + " " + std::to_string(sid) + " data " + std::to_string(rng.below(5)) + " " + rndHex(rng, rng.below(4));
                 else if (k < 8) op = "inj " + std::to_string(sender) + " " + std::to_string(sid) + " open " + std::to_string(rng.below(2) ? b : 5000);
@@ -815,6 +963,18 @@ int main(int argc, char **argv)
                 // successfully after the first `size` bytes — which are the right ones) and as a separate trailing read
                 if (n <= 64) runSocks(d, hash, true, { d + QByteArray("Z") }, true, "overlong");
                 runSocks(d, hash, true, { d, QByteArray("Z") }, false, "trailing-bytes-after-complete-file");
+            }
+        }
+        // receiver devices on the SOCKS5 path (small sizes: one read per chunk on loopback)
+        for (long n : { 5L, 64L }) {
+            QByteArray d = makeContent("rnd", n, rng);
+            for (DevSpec dev : { DevSpec { DevSpec::PerWrite, 1 }, DevSpec { DevSpec::PerWrite, 7 }, DevSpec { DevSpec::PerWrite, 1000 },
+                                 DevSpec { DevSpec::Full, n - 1 }, DevSpec { DevSpec::Full, n }, DevSpec { DevSpec::Fail, n - 1 }, DevSpec { DevSpec::Fail, n } }) {
+                for (int hash = 1; hash >= 0; hash--) {
+                    runSocks(d, hash, true, { d }, false, "device-honest", dev);
+                    runSocks(d, hash, true, { d.left(int(n / 2)), d.mid(int(n / 2)) }, false, "device-honest-2chunks", dev);
+                    stat("socks_device_runs", 2);
+                }
             }
         }
         if (!socksAvailable) sample("SOCKS5: loopback TCP not available in this environment, path not exercised");
